@@ -161,16 +161,16 @@ inductive ChItem where
   deriving DecidableEq, Repr
 
 /-- `Chars::next` of starts_with.rs on the remaining bytes: item and remaining bytes.
-    Panics: width 0 (`from_utf8(&[])` is `Ok("")`, `.chars().next().unwrap()`), and a lead byte
-    whose sequence runs past the end (`&bytes[pos..pos + width]`). -/
+    Width 0 and a lead byte whose sequence runs past the end are invalid bytes (before fix they
+    panicked: `.chars().next().unwrap()` on `""`, `&bytes[pos..pos + width]` out of range). -/
 def charsNext (bs : List Nat) : Option (ChItem × List Nat) :=
   match bs with
   | [] => none
   | b :: rest =>
     let w := utf8Width b
     if w = 1 then some (.ok b, rest)
-    else if w = 0 then some (.panic, [])
-    else if bs.length < w then some (.panic, [])
+    else if w = 0 then some (.bad, rest)            -- a byte that cannot start a sequence
+    else if bs.length < w then some (.bad, rest)    -- a sequence cut short by the end of the input
     else match decodeLossy (bs.take w) with
       | [c] => some (.ok c, bs.drop w)
       | _ => some (.bad, rest)
